@@ -66,11 +66,26 @@ impl TimeZone {
             local_time_types.push(LocalTimeType::new(utoff, dst));
         }
 
+        // Every transition has to reference an existing local time type
+        if transitions
+            .iter()
+            .any(|transition| transition.local_time_type_index >= local_time_types.len())
+        {
+            return Err(TimeZoneError::InvalidTzFile(
+                "Transition references a non-existent local time type",
+            ));
+        }
+
         let extra_rule = if let Some(footer) = footer {
             TransitionRule::from_tz_string(footer, header.ver == Version::V3)?
         } else {
             None
         };
+
+        // Without a rule in the footer, the local time types are the only source for an offset
+        if local_time_types.is_empty() && extra_rule.is_none() {
+            return Err(TimeZoneError::InvalidTzFile("No local time types found"));
+        }
 
         Ok(Self {
             transitions,
